@@ -588,8 +588,8 @@ def e_transkey(kind, variant):
     def val(cur, msg, _):
         if kind == 'alt':
             if 'rsa' not in _alt_keys:
-                _alt_keys['rsa'] = asyncssh.generate_private_key('ssh-rsa',
-                                                                  2048)
+                _alt_keys['rsa'] = asyncssh.generate_private_key(
+                    'ssh-rsa', key_size=2048)
             return _alt_keys['rsa'].public_data
         return [cur[:-2], _flip(cur, 6), b''][variant % 3]
     return e_field('kt', val)
@@ -908,3 +908,293 @@ def printed_cases(output, head='case'):
 def available_kex():
     from asyncssh.kex import get_kex_algs
     return [a.decode() for a in get_kex_algs() if not a.startswith(b'gss-')]
+
+
+# ---------------------------------------------------------------------------
+# host key / signature algorithm: wire observation, independent verifier,
+# histories of connections to one listener (specs/Handshake/HostKeyAlg.tla)
+# ---------------------------------------------------------------------------
+
+CERT_SUFFIX = '-cert-v01@openssh.com'
+HK_REAL = {'ed': 'ssh-ed25519', 'ec': 'ecdsa-sha2-nistp256',
+           'rsa1': 'ssh-rsa', 'rsa256': 'rsa-sha2-256',
+           'rsa512': 'rsa-sha2-512', 'c1': 'ssh-rsa' + CERT_SUFFIX,
+           'c256': 'rsa-sha2-256' + CERT_SUFFIX,
+           'c512': 'rsa-sha2-512' + CERT_SUFFIX,
+           'ced': 'ssh-ed25519' + CERT_SUFFIX}
+HK_ABS = {v: k for k, v in HK_REAL.items()}
+
+
+def sig_alg_of(hostkey_alg):
+    """Signature algorithm that goes with a negotiated host key algorithm
+    name (RFC 8332 / PROTOCOL.certkeys)."""
+    if hostkey_alg.endswith(CERT_SUFFIX):
+        return hostkey_alg[:-len(CERT_SUFFIX)]
+    return hostkey_alg
+
+
+def key_blob_type_of(hostkey_alg):
+    """Type string at the head of K_S for a negotiated algorithm name."""
+    base = sig_alg_of(hostkey_alg)
+    if base.startswith('rsa-sha2-'):
+        base = 'ssh-rsa'
+    return base + CERT_SUFFIX if hostkey_alg.endswith(CERT_SUFFIX) else base
+
+
+def wire_hostkey_choice(mitm):
+    """(negotiated name per RFC 4253 7.1 from the two KEXINITs as they
+    travelled, type of K_S, algorithm named in the signature blob)."""
+    ic, isv = mitm.by_name.get('IC'), mitm.by_name.get('IS')
+    if ic is None or isv is None or ic.fields is None or isv.fields is None:
+        return None, None, None
+    srv = isv.fields['hostkey']
+    neg = next((a.decode() for a in ic.fields['hostkey'] if a in srv), None)
+    rep = mitm.by_name.get('REPLY') or mitm.by_name.get('PUBKEY')
+    done = mitm.by_name.get('REPLY') or mitm.by_name.get('DONE')
+    kst = sga = None
+    try:
+        if rep is not None and rep.fields:
+            kst = Rd(rep.fields['ks']).str().decode()
+        if done is not None and done.fields:
+            sga = Rd(done.fields['sig']).str().decode()
+    except (Malformed, UnicodeDecodeError):
+        pass
+    return neg, kst, sga
+
+
+def verify_independent(ks, sig, data):
+    """Verify an SSH signature blob over `data` under the public key in the
+    key / certificate blob `ks`, with the algorithm NAMED in the signature
+    blob, using the cryptography package directly (no asyncssh code)."""
+    from cryptography.exceptions import InvalidSignature
+    from cryptography.hazmat.primitives import hashes
+    from cryptography.hazmat.primitives.asymmetric import (
+        ec, ed25519, padding, rsa, utils)
+    r = Rd(ks)
+    ktype = r.str().decode()
+    if ktype.endswith(CERT_SUFFIX):
+        r.str()                                   # nonce
+        ktype = ktype[:-len(CERT_SUFFIX)]
+    s = Rd(sig)
+    alg = s.str().decode()
+    blob = s.str()
+    try:
+        if ktype == 'ssh-rsa':
+            e, n = r.mpint(), r.mpint()
+            h = {'ssh-rsa': hashes.SHA1, 'rsa-sha2-256': hashes.SHA256,
+                 'rsa-sha2-512': hashes.SHA512}.get(alg)
+            if h is None:
+                return False
+            rsa.RSAPublicNumbers(e, n).public_key().verify(
+                blob, data, padding.PKCS1v15(), h())
+        elif ktype == 'ssh-ed25519':
+            if alg != 'ssh-ed25519':
+                return False
+            ed25519.Ed25519PublicKey.from_public_bytes(r.str()).verify(
+                blob, data)
+        elif ktype.startswith('ecdsa-sha2-nistp'):
+            if alg != ktype:
+                return False
+            curve, h = {'256': (ec.SECP256R1(), hashes.SHA256()),
+                        '384': (ec.SECP384R1(), hashes.SHA384()),
+                        '521': (ec.SECP521R1(), hashes.SHA512())}[ktype[-3:]]
+            r.str()
+            pub = ec.EllipticCurvePublicKey.from_encoded_point(curve, r.str())
+            b = Rd(blob)
+            pub.verify(utils.encode_dss_signature(b.mpint(), b.mpint()),
+                       data, ec.ECDSA(h))
+        else:
+            return False
+    except (InvalidSignature, Malformed, ValueError):
+        return False
+    return True
+
+
+_hist_keys = {}
+
+
+def _hk(name):
+    if not _hist_keys:
+        g = asyncssh.generate_private_key
+        _hist_keys.update(ed=g('ssh-ed25519'), ed2=g('ssh-ed25519'),
+                          ec=g('ecdsa-sha2-nistp256'),
+                          rsa=g('ssh-rsa', key_size=2048),
+                          rsa2=g('ssh-rsa', key_size=2048),
+                          ca=g('ssh-ed25519'))
+        ca = _hist_keys['ca']
+        _hist_keys['rsacert'] = ca.generate_host_certificate(
+            _hist_keys['rsa2'], 'rsa-host')
+        _hist_keys['edcert'] = ca.generate_host_certificate(
+            _hist_keys['ed2'], 'ed-host')
+    return _hist_keys[name]
+
+
+def listener_keypairs(keyset):
+    """Fresh SSHKeyPair objects (as a listener gets them when it starts)."""
+    kps = []
+    for k in ('ed', 'ec', 'rsa', 'rsacert', 'edcert'):
+        if k not in keyset:
+            continue
+        if k == 'rsacert':
+            kps += [p for p in asyncssh.load_keypairs(
+                [(_hk('rsa2'), _hk('rsacert'))]) if p.has_cert]
+        elif k == 'edcert':
+            kps += [p for p in asyncssh.load_keypairs(
+                [(_hk('ed2'), _hk('edcert'))]) if p.has_cert]
+        else:
+            kps += asyncssh.load_keypairs([_hk(k)])
+    return kps
+
+
+def history_known_hosts():
+    lines = [b'[127.0.0.1]:%d ' % PORT + _hk(k).export_public_key('openssh')
+             for k in ('ed', 'ec', 'rsa')]
+    lines.append(b'@cert-authority [127.0.0.1]:%d ' % PORT +
+                 _hk('ca').export_public_key('openssh'))
+    return b''.join(lines)
+
+
+class ConnObs:
+    pass
+
+
+def run_history(keyset, lists, schedule=None, force_sig=None):
+    """Several connections to ONE listener (shared host key pairs).
+
+    lists: per connection the client's server_host_key_algs (real names).
+    schedule: None = one connection after the other; else a list of
+    ('open'|'choose'|'sign', i): when the server processes connection i's
+    KEXINIT (choose) and its KEX INIT (sign), by manual delivery.
+    force_sig: a hostile server that signs with this algorithm whatever
+    was negotiated (client-side observation).
+    -> list of ConnObs (in order of opening)."""
+    kps = listener_keypairs(keyset)
+    if force_sig:
+        for kp in kps:
+            kp.set_sig_algorithm = lambda alg: None
+            kp.sig_algorithm = force_sig.encode()
+    kh = history_known_hosts()
+    loop = new_loop()
+    obs = []
+    transports = []
+
+    def on_connect(ct, st):
+        m = Mitm('ecdh', ())
+        m.ctr, m.str_ = ct, st
+        ct.filter = m.filter
+        st.filter = m.filter
+        if schedule is not None:
+            st.auto = False
+        o = ConnObs()
+        o.mitm = m
+        o.exc = None
+        o.completed = False
+        o.sid = None
+        obs.append(o)
+        transports.append((ct, st))
+    loop.net.on_connect = on_connect
+
+    class Server(asyncssh.SSHServer):
+        def begin_auth(self, username):
+            return False
+
+    async def one(i):
+        try:
+            conn = await asyncssh.connect(
+                '127.0.0.1', PORT, known_hosts=kh, config=None,
+                client_keys=None, username='u',
+                kex_algs=['curve25519-sha256'],
+                server_host_key_algs=list(lists[i]))
+        except Exception as exc:            # pylint: disable=broad-except
+            return exc
+        sid = conn._session_id
+        conn.abort()
+        return sid
+
+    def step(st):
+        if st.inq:
+            first = st.inq[0]
+            if isinstance(first, (bytes, bytearray)):
+                loop.run_callback(st.deliver, len(first))
+            else:
+                loop.run_callback(st.deliver)
+
+    try:
+        acc = loop.run_until_complete(asyncssh.listen(
+            '127.0.0.1', PORT, server_factory=Server, server_host_keys=kps,
+            kex_algs=['curve25519-sha256']))
+        results = [None] * len(lists)
+        if schedule is None:
+            for i in range(len(lists)):
+                results[i] = loop.run_until_complete(one(i))
+        else:
+            tasks = {}
+            order = []
+            for what, i in schedule:
+                if what == 'open':
+                    tasks[i] = loop.create_task(one(i))
+                    order.append(i)
+                    loop.run_until_idle()
+                    continue
+                st = transports[order.index(i)][1]
+                if what == 'choose':
+                    step(st)                # version line
+                    loop.run_until_idle()
+                    step(st)                # KEXINIT -> choose_server_host_key
+                else:
+                    step(st)                # KEX INIT -> signature
+                loop.run_until_idle()
+            for _, st in transports:
+                st.auto = True
+            for i in order:
+                results[i] = loop.run_until_complete(tasks[i])
+            # observations are stored in order of opening
+            obs[:] = [obs[order.index(i)] for i in range(len(lists))]
+        acc.close()
+        try:
+            loop.max_time = loop.time() + 1000
+            loop.run_until_idle(advance_time=True)
+        except BaseException:               # pylint: disable=broad-except
+            pass
+        for i, o in enumerate(obs):
+            r = results[i]
+            if isinstance(r, (bytes, bytearray)):
+                o.completed, o.sid = True, bytes(r)
+            else:
+                o.exc = r
+            o.neg, o.ks_type, o.sig_alg = wire_hostkey_choice(o.mitm)
+            o.verified = None
+            rep = o.mitm.by_name.get('REPLY')
+            if o.completed and rep is not None and rep.fields:
+                o.verified = verify_independent(rep.fields['ks'],
+                                                rep.fields['sig'], o.sid)
+        loop_exc = [str(c.get('exception') or c.get('message'))
+                    for c in loop.exceptions]
+    finally:
+        close_loop(loop)
+    for o in obs:
+        o.loop_exceptions = loop_exc
+    return obs
+
+
+def interleavings(n, limit=None, rnd=None):
+    """Schedules for n connections opened up front: every order of the
+    choose/sign steps with choose(i) before sign(i)."""
+    out = []
+
+    def rec(prefix, chosen, signed):
+        if len(signed) == n:
+            out.append(list(prefix))
+            return
+        for i in range(n):
+            if i not in chosen:
+                rec(prefix + [('choose', i)], chosen | {i}, signed)
+            elif i not in signed:
+                rec(prefix + [('sign', i)], chosen, signed | {i})
+    rec([], frozenset(), frozenset())
+    opens = [('open', i) for i in range(n)]
+    # drop the fully sequential ones (covered by schedule=None)
+    out = [opens + s for s in out]
+    if rnd is not None:
+        rnd.shuffle(out)
+    return out[:limit] if limit else out
